@@ -34,7 +34,8 @@ from .. import graph, tlc
 from ..graph import Mismatch
 
 S = tlc.Subst
-WORKERS = int(os.environ.get("VERIF_TLC_WORKERS", "4"))
+WATCHDOG_S = 10
+WORKERS = int(os.environ.get("VERIF_TLC_WORKERS", "6"))  # concurrent single-worker TLC runs
 
 BASE = dict(
     MODE="sel", EMIT=False, KIND="rr", NT=2, GAMMA=S("QHalf"), WIN=250, BASELINE="none", OP="none", HG=S("QHalf"),
@@ -192,7 +193,7 @@ def sel_configs(quick):
     out = [("rr3", _cfg(KIND="rr", NT=3, MAXROUNDS=7, REWARDS=S("RewTwo"))),
            ("base", _cfg(KIND="base", NT=2, MAXROUNDS=3, REWARDS=S("RewTwo"))),
            ("ducb2-half", _cfg(KIND="ducb", NT=2, MAXROUNDS=7 if quick else 8)),
-           ("ducb2-one", _cfg(KIND="ducb", NT=2, GAMMA=S("QOne"), MAXROUNDS=7 if quick else 8)),
+           ("ducb2-one", _cfg(KIND="ducb", NT=2, GAMMA=S("QOne"), REWARDS=S("RewTwo") if quick else S("RewA"), MAXROUNDS=9 if quick else 8)),
            ("ducb3-two", _cfg(KIND="ducb", NT=3, REWARDS=S("RewTwo"), MAXROUNDS=9 if quick else 10))]
     named = [("last", "none"), ("max", "max-with-0"), ("none", "none"), ("none", "neg"), ("avg", "abs"), ("davg", "none")]
     allc = [(b, o) for b in ("none", "last", "max", "avg", "davg") for o in ("none", "abs", "max-with-0", "neg")]
@@ -213,10 +214,7 @@ def _gen_graph(name, c):
     return name, c, tlc.run("Scheduler", tlc.cfg_text(constants=c, invariants=SEL_INV), workers=1, tag="sched-" + name)
 
 
-def run_selectors(rep, quick):
-    cfgs = sel_configs(quick)
-    with ThreadPoolExecutor(WORKERS) as ex:
-        results = list(ex.map(lambda nc: _gen_graph(*nc), cfgs))
+def run_selectors(rep, quick, results):
     edges = nontrivial = 0
     graphs = {}
     for name, c, r in results:
@@ -449,9 +447,31 @@ def run_scheduler(sc):
     rb, mix = StubBuffer(), TaskSelectionMixin()
     learner = StubLearner(events, sc.get("mode", "exact"), rb=None if kind == "uts" else rb, mix=None if kind == "uts" else mix)
     trace = {"id": sc["id"], "kind": kind, "events": events, "aborted": False, "exception": "", "mode": sc.get("mode", "exact")}
+    import signal
+    import threading
+
+    def _alarm(signum, frame):
+        raise _Abort(f"the scheduler did not return within {WATCHDOG_S} s")
+
+    watchdog = threading.current_thread() is threading.main_thread()
+    if watchdog:  # a scheduler that spins without calling train_st must not hang the check
+        old_handler = signal.signal(signal.SIGALRM, _alarm)
+        signal.setitimer(signal.ITIMER_REAL, WATCHDOG_S)
+    try:
+        _run_scheduler_body(sc, trace, ts, learner, rb, mix, events)
+    finally:
+        if watchdog:
+            signal.setitimer(signal.ITIMER_REAL, 0)
+            signal.signal(signal.SIGALRM, old_handler)
+    trace["env_steps"] = [int(x) for x in env.steps]
+    return trace
+
+
+def _run_scheduler_body(sc, trace, ts, learner, rb, mix, events):
     import contextlib
     import io
 
+    kind, nt = sc["kind"], sc["nt"]
     with warnings.catch_warnings(), np.errstate(all="ignore"), contextlib.redirect_stdout(io.StringIO()):
         warnings.simplefilter("ignore")
         try:
@@ -499,8 +519,6 @@ def run_scheduler(sc):
 
             tb = traceback.extract_tb(e.__traceback__)
             trace["exception"] = f"{type(e).__name__} at {tb[-1].filename.split('/')[-1]}:{tb[-1].name}: {str(e)[:160]}"
-    trace["env_steps"] = [int(x) for x in env.steps]
-    return trace
 
 
 # ------------------------------------------------------------ trace validation
@@ -599,13 +617,15 @@ def _stuck_fields(ev, cands):
                 bad.append(f)
         if best is None or len(bad) < len(best):
             best = bad
-    return best if best else ["no_successor"]
+    order = ["ts", "gs", "budgets", "avg", "solved", "unsolv", "main", "upd", "round", "s2", "stage"]
+    return sorted(best, key=lambda f: order.index(f) if f in order else 99)[:1] if best else ["no_successor"]
 
 
 def judge(traces, by):
     """-> (violations [(key, what, replay)], sensitivity summary).  A violation is a scheduler clause that fails."""
     viol, sens = [], {"traces": 0, "over_budget": 0, "max_overshoot": 0, "no_progress": 0, "example": None}
     for n, t in enumerate(traces, start=1):
+        n_before = len(viol)
         kind, evs = t["kind"], t["events"]
         name = {"uts": "train_uts", "amt": "train_active_mt", "smt": "train_smt"}[kind]
         recs = by.get(n, [])
@@ -626,6 +646,9 @@ def judge(traces, by):
                 if short_uts and c in UTS_SENSITIVE:
                     continue
                 viol.append((f"{name}:{r['k']}:{c}", f"{name} ({t['id']}, event {i} {r['k']}): clause `{c}` fails; event {json.dumps(evs[i - 1])[:400]}; model {json.dumps(r.get('exp'))[:400]}", replay))
+        end = verdicts.get(len(evs))
+        if end and end["k"] == "end" and kind in ("amt", "smt") and end["exp"]["exec"] != t["env_steps"]:
+            raise tlc.MachineryError(f"recorder inconsistent in {t['id']}: environment counted {t['env_steps']}, events sum to {end['exp']['exec']}")
         if t["aborted"]:
             if short_uts:
                 sens["no_progress"] += 1
@@ -641,6 +664,7 @@ def judge(traces, by):
             fields = _stuck_fields(ev, cands)
             viol.append((f"{name}:{ev['k']}:differs[{'+'.join(fields)}]",
                          f"{name} ({t['id']}): event {accepted + 1} is no step of the model; observed {json.dumps(ev)[:500]}; model admits {json.dumps(ex)[:700]}", replay))
+        t["clean"] = len(viol) == n_before
         if short_uts and not t["aborted"]:
             total = sum(t["env_steps"])
             over = total - t["cfg"]["T"]
@@ -756,6 +780,9 @@ def run_zeta(rep, graphs, quick):
                     pre_ch, pre_rw = list(d.chosen_arms), list(d.rewards)
                     try:
                         a = ad.select()
+                        pend = ad.p["kind"] == "ducb" or ad.obj.waiting_for_reward
+                        if not pend:
+                            raise AssertionError("selector does not wait for the reward after select()")
                     except Exception as e:
                         rep.violation(f"{CLASS_OF[p['kind']]}:zeta:exception:{type(e).__name__}", f"select raised {e!r} with zeta={zeta}",
                                       {"kind": "sched:zeta", "p": {**p, "gamma": qj(p["gamma"]), "hg": qj(p["hg"])}, "zeta": zeta, "bound": bound, "rewards": rs[: n_ + 1]})
@@ -775,13 +802,16 @@ def run_zeta(rep, graphs, quick):
     return cases
 
 
-def run_window(rep):
+def _window_job(nt):
+    c = _cfg(KIND="ducb", NT=nt, GAMMA=S("QOne"), REWARDS=S("RewConst"), MAXROUNDS=262, MAXREJ=0, EMIT=True, TIE="first")
+    return nt, c, tlc.run("Scheduler", tlc.cfg_text(constants=c, invariants=["Aligned"]), workers=1, tag=f"sched-window{nt}")
+
+
+def run_window(rep, results):
     """The 250-step window: with constant rewards all arms tie for ever, so the only thing that makes the bandit leave
     arm 0 is another arm falling out of the window.  One deterministic behaviour of 262 rounds, replayed edge by edge."""
     tot = 0
-    for nt in (2, 3):
-        c = _cfg(KIND="ducb", NT=nt, GAMMA=S("QOne"), REWARDS=S("RewConst"), MAXROUNDS=262, MAXREJ=0, EMIT=True, TIE="first")
-        r = tlc.run("Scheduler", tlc.cfg_text(constants=c, invariants=["Aligned"]), workers=1, tag=f"sched-window{nt}")
+    for nt, c, r in results:
         rep.add_tlc(r, f"Scheduler sel ducb window NT={nt} (262 rounds, constant reward)")
         if not r.ok:
             rep.violation(f"spec:Scheduler:{r.violated}", f"design-level violation {r.violated} (window)", r.error_trace[:3000])
@@ -809,13 +839,13 @@ def model_jobs(quick):
     jobs = [
         ("canary Select_IgnoresWaiting", _cfg(KIND="rr", NT=2, MAXROUNDS=3), ["Alternates"], [], "NextSelBad", "Alternates"),
         ("canary Feedback_KeepsFirst", _cfg(KIND="gen", NT=2, MAXROUNDS=3), ["Aligned"], [], "NextGenBad", "Aligned"),
-        ("sel gen2 any-tie", _cfg(KIND="gen", NT=2, BASELINE="max", OP="max-with-0", REWARDS=S("RewTwo"), GAMMA=S("QOne"), MAXROUNDS=9), SEL_INV, [], "Next", None),
-        ("sel ducb2 window 3", _cfg(KIND="ducb", NT=2, GAMMA=S("QOne"), WIN=3, REWARDS=S("RewTwo"), MAXROUNDS=10), SEL_INV, [], "Next", None),
+        ("sel gen2 any-tie", _cfg(KIND="gen", NT=2, BASELINE="max", OP="max-with-0", REWARDS=S("RewTwo"), GAMMA=S("QOne"), MAXROUNDS=8 if quick else 10), SEL_INV, [], "Next", None),
+        ("sel ducb2 window 3", _cfg(KIND="ducb", NT=2, GAMMA=S("QOne"), WIN=3, REWARDS=S("RewTwo"), MAXROUNDS=9 if quick else 11), SEL_INV, [], "Next", None),
         ("uts", _cfg(MODE="uts", NT=2, T=6, EPI=2, MAXLEN=3, MAXROUNDS=8), ACC_INV, [], "Next", None),
         ("canary uts learner one short: counter", _cfg(MODE="uts", NT=2, T=6, EPI=1, MAXLEN=3, MAXROUNDS=8, LMODE="short"), ["UtsExact"], [], "Next", "UtsExact"),
         ("canary uts learner one short: budget", _cfg(MODE="uts", NT=2, T=6, EPI=1, MAXLEN=3, MAXROUNDS=8, LMODE="short"), ["BudgetRespected"], [], "Next", "BudgetRespected"),
         ("amt rr", _cfg(MODE="amt", KIND="rr", NT=3, T=7, EPI=2, MAXLEN=2), ACC_INV, [], "Next", None),
-        ("amt gen", _cfg(MODE="amt", KIND="gen", NT=2, T=8, EPI=1, MAXLEN=2, BASELINE="max", OP="max-with-0"), ACC_INV + ["InitialRoundsCoverAll", "ChoiceMaximises"], [], "Next", None),
+        ("amt gen", _cfg(MODE="amt", KIND="gen", NT=2, T=7 if quick else 9, EPI=1, MAXLEN=2, BASELINE="max", OP="max-with-0"), ACC_INV + ["InitialRoundsCoverAll", "ChoiceMaximises"], [], "Next", None),
         ("amt learner one short (insensitive)", _cfg(MODE="amt", KIND="rr", NT=2, T=6, EPI=2, MAXLEN=2, LMODE="short"), ACC_INV, [], "Next", None),
         ("canary AmtCall_CountsReported", _cfg(MODE="amt", KIND="rr", NT=2, T=4, EPI=1, MAXLEN=2, LMODE="short"), ["PerTaskExact"], [], "NextAmtBad", "PerTaskExact"),
         ("smt K=2", _cfg(MODE="smt", NT=3, KK=2, T=5, B2=2, EPI=1, MAXLEN=2, NAV=2), ACC_INV, P, "Next", None),
@@ -834,15 +864,12 @@ def model_jobs(quick):
     return jobs
 
 
-def run_models(rep, quick):
-    jobs = model_jobs(quick)
+def _model_job(j):
+    name, c, inv, props, nxt, want = j
+    return j, tlc.run("Scheduler", tlc.cfg_text(constants=c, invariants=inv, properties=props, next=nxt), workers=1, coverage=want is None, tag="sched-mc")
 
-    def one(j):
-        name, c, inv, props, nxt, want = j
-        return j, tlc.run("Scheduler", tlc.cfg_text(constants=c, invariants=inv, properties=props, next=nxt), workers=1, coverage=want is None, tag="sched-mc")
 
-    with ThreadPoolExecutor(WORKERS) as ex:
-        results = list(ex.map(one, jobs))
+def run_models(rep, results):
     for (name, c, inv, props, nxt, want), r in results:
         if want is not None:
             if r.violated != want:
@@ -859,18 +886,28 @@ def run_models(rep, quick):
 def binding_canaries(traces, graphs):
     """corrupt one recorded field / one expected value: the comparison has to notice"""
     bad = []
-    pick = lambda kind: next(t for t in traces if t["kind"] == kind and t["mode"] == "exact" and not t["exception"] and sum(1 for e in t["events"] if e["k"] == "call") >= 2)
-    t = copy.deepcopy(pick("amt"))
-    [e for e in t["events"] if e["k"] == "call"][1]["obs"]["ts"][0] += 1
-    bad.append((t, "train_active_mt:call:ts"))
-    t = copy.deepcopy(pick("smt"))
-    e = [e for e in t["events"] if e["k"] == "call"][1]
-    e["obs"]["ts"][e["task"]] += 1
-    bad.append((t, "train_smt:call:differs[ts"))
-    t = copy.deepcopy(pick("uts"))
-    [e for e in t["events"] if e["k"] == "call"][1]["g"] += 1
-    t["mode"] = "short"  # the count is now inconsistent on purpose; judge the scheduler clauses only
-    bad.append((t, "train_uts:call:counter"))
+
+    def pick(kind):  # a run the model accepted completely (on a broken tree there may be none: nothing to corrupt then)
+        for t in traces:
+            if t["kind"] == kind and t["mode"] == "exact" and t.get("clean") and sum(1 for e in t["events"] if e["k"] == "call") >= 2:
+                return copy.deepcopy(t)
+        return None
+
+    t = pick("amt")
+    if t:
+        [e for e in t["events"] if e["k"] == "call"][1]["obs"]["ts"][0] += 1
+        bad.append((t, "train_active_mt:call:ts"))
+    t = pick("smt")
+    if t:
+        e = [e for e in t["events"] if e["k"] == "call"][1]
+        e["obs"]["ts"][e["task"]] += 1
+        bad.append((t, "train_smt:call:differs[ts"))
+    t = pick("uts")
+    if t:
+        t["events"][-1]["obs"]["gs"] += 1
+        bad.append((t, "train_uts:end:returned"))
+    if not bad:
+        return
     for n, (t, _) in enumerate(bad):
         t["id"] = f"canary{n}"
     r, by = validate([t for t, _ in bad], tag="schedcanary")
@@ -899,12 +936,16 @@ def run_sched(rep):
     quick = rep.tier == "quick"
     for m in ("SchedulerOps", "Scheduler", "SchedulerTrace"):
         tlc.sany(m)
-    graphs, edges, nontrivial = ({}, 0, 0) if os.environ.get("SCHED_SKIP_SEL") else run_selectors(rep, quick)
+    with ThreadPoolExecutor(WORKERS) as ex:  # all TLC runs of the state machines, a few at a time
+        f_models = [ex.submit(_model_job, j) for j in model_jobs(quick)]
+        f_graphs = [ex.submit(_gen_graph, n, c) for n, c in sel_configs(quick)]
+        f_window = [ex.submit(_window_job, nt) for nt in ((2,) if quick else (2, 3))]
+        traces, by, calls = run_traces(rep, quick)  # meanwhile: the real schedulers
+        run_models(rep, [f.result() for f in f_models])
+        graphs, edges, nontrivial = run_selectors(rep, quick, [f.result() for f in f_graphs])
+        wc = run_window(rep, [f.result() for f in f_window])
     rep.extra["sched_selector_edges"] = edges
-    run_models(rep, quick)
     zc = run_zeta(rep, graphs, quick)
-    wc = run_window(rep) if not os.environ.get("SCHED_SKIP_SEL") else 0
-    traces, by, calls = run_traces(rep, quick)
     binding_canaries(traces, graphs)
     rep.evaluations += edges + calls + zc + wc
     rep.distinct += nontrivial + calls + zc
@@ -922,5 +963,61 @@ def run_sched(rep):
     ]
 
 
+def _p_from_json(pj):
+    p = dict(pj)
+    p["gamma"] = Fraction(pj["gamma"][0], pj["gamma"][1])
+    p["hg"] = Fraction(pj["hg"][0], pj["hg"][1])
+    return p
+
+
 def replay_sched(d, rep):
-    return 0
+    """Re-run one stored failing case against the real code; 1 if it still fails."""
+    if not isinstance(d, dict):
+        print("design-level violation (TLC error trace), nothing to replay against the code:")
+        print(str(d)[:3000])
+        return 1
+    kind = d.get("kind")
+    if kind == "sched:sel":
+        p = _p_from_json(d["p"])
+        ad = SelAdapter(p)
+        try:
+            for st in d["path"]:
+                sel_step(ad, st["op"], st["args"], st.get("exp"), None, None)
+                v = sel_project(ad)
+                print(f"{st['op']:17s} {st['args']!s:10s} -> waiting={v['waiting']} chosen={v['chosen']} rewards={v['rewards']} last={v['last']}")
+        except Mismatch as m:
+            print("  ", m.what)
+            return 1
+        got = sel_project(ad)
+        want = d.get("want")
+        if want is not None and graph.canon(got) != graph.canon(want):
+            bad = sorted(k for k in want if got.get(k) != want[k])
+            for k in bad:
+                print(f"   {CLASS_OF[p['kind']]}.{k}: real {got.get(k)}  model {want[k]}")
+            return 1
+        return 0
+    if kind == "sched:trace":
+        t = run_scheduler(d["scenario"])
+        t["scenario"] = d["scenario"]
+        for e in t["events"]:
+            print("  ", json.dumps(e)[:300])
+        if t["exception"]:
+            print("   exception:", t["exception"])
+        r, by = validate([t], tag="schedreplay")
+        viol, _ = judge([t], by)
+        for k, w, _ in viol:
+            print(f"   {k}: {w[:600]}")
+        return 1 if viol else 0
+    if kind == "sched:zeta":
+        p = _p_from_json(d["p"])
+        ad = SelAdapter(p, zeta=d["zeta"], upper_bound=d["bound"])
+        a = None
+        for r in d["rewards"]:
+            pre = (list(ad.ducb.chosen_arms), list(ad.ducb.rewards))
+            a = ad.select()
+            ad.feedback(fq(r))
+        idx = documented_index(pre[0], pre[1], p["nt"], p["gamma"], d["zeta"], d["bound"])
+        print(f"   chosen arm {a}; documented index per arm {idx}")
+        return 0 if idx[a] >= max(idx) - 4 * np.spacing(abs(max(idx))) else 1
+    print("unknown replay object", str(d)[:200])
+    return 2
